@@ -972,14 +972,11 @@ class ArrayType(Type):
             if self.minimum <= len(data) <= self.maximum:
                 encoder.append_bit(0)
             else:
+                # Outside the root: as for an unbound size,
+                # fragmented if 16K elements or more.
                 encoder.append_bit(1)
-                encoder.align()
-                encoder.append_length_determinant(len(data))
 
-                for entry in data:
-                    self.element_type.encode(entry, encoder)
-
-                return
+                return self.encode_unbound(data, encoder)
 
         if self.number_of_bits is None:
             return self.encode_unbound(data, encoder)
@@ -1006,12 +1003,9 @@ class ArrayType(Type):
             bit = decoder.read_bit()
 
             if bit:
-                decoder.align()
-                length = decoder.read_length_determinant()
+                return self.decode_unbound(decoder)
 
-        if length is not None:
-            pass
-        elif self.number_of_bits is None:
+        if self.number_of_bits is None:
             return self.decode_unbound(decoder)
         elif self.minimum != self.maximum:
             length = decoder.read_constrained_whole_number(self.minimum,
